@@ -2,7 +2,8 @@ SPEC = {
     "id": "C16",
     "level_text": "Theorems (Coq, all epochs/lifetimes/clock readings/sequence lengths): the advertised lifetime equals max(0, epoch+L-now), is non-negative, zero from the deadline on, non-increasing along any non-decreasing clock sequence, preferred<=valid at every instant, constants when not deprecated. The model is tied to plugin.Prefix/Route.Apply by differential runs of the real code along clock sequences around both deadlines.",
     "level_note": "Trusted: Coq kernel + vm_compute; the Go driver and the rendering of cases; time.Time arithmetic is modelled on Z without saturation (instants within +-2^62 ns).",
-    "drivers": [{"pkg": "internal/plugin", "test": "TestVerifC16"}],
+    "drivers": [{"pkg": "internal/plugin", "test": "TestVerifC16"},
+                {"pkg": "internal/plugin", "test": "TestVerifC16Epoch"}],
     "rule": "random (epoch, valid, preferred<=valid | route lifetime, deprecated flag) with boundary-biased "
             "durations (1ns, 1s+-1ns, 1.5s, 4h, 24h, 30d, 2^32-2 s, infinity for non-deprecated); each plugin value is "
             "evaluated along a sequence of clock readings containing deadline-1s/-1ns/0/+1ns/+1s for both deadlines, "
@@ -10,7 +11,7 @@ SPEC = {
             "those), 30% shuffled; 30% of the plugins use the ::/64 / ::/0 wildcard form; in 35% the injected clock advances by "
             "1ns..7s on every reading within one Apply (all lifetimes of one RA must describe the first reading); 30% of the plugin values come out of config.Parse given the same epoch (sub-second part included) and 40% are Prepared once or twice before use, as at every (re)initialisation (the deadline must not move). A case is non-trivial when the plugin is deprecated (the countdown is exercised); "
             "distinct by canonical input.",
-    "nontrivial": lambda c: bool(c.get("input", {}).get("deprecated")),
+    "nontrivial": lambda c: bool(c.get("input", {}).get("deprecated")) or c.get("input", {}).get("kind") == "epoch-identity",
     "trusted": ["time.Time saturation (|now-epoch| near 2^63 ns) is outside the model; generated instants stay below 2^62 ns"],
     "assumptions": ["clock readings and epoch + lifetime stay inside the int64 nanosecond range (no time.Time/Duration saturation)",
                     "the plugin's Epoch is non-zero (config.Parse is always given time.Now())"],
